@@ -347,10 +347,12 @@ Section L1.
           ({| content := content mf1; existed := existed mf1; deleted := deleted mf1;
               perm := r_prev_perm prev |}, r_prev_perm prev)
       | Normal =>
+          (* a file that is not there has no mode: a later creation makes a new file *)
           match (match d with Fwd => fp_nperm fp | Rev => fp_operm fp end) with
           | Some p => ({| content := content mf1; existed := existed mf1; deleted := deleted mf1;
-                          perm := Some p |}, perm mf1)
-          | None => (mf1, perm mf1)
+                          perm := if deleted mf1 then None else Some p |}, perm mf1)
+          | None => ({| content := content mf1; existed := existed mf1; deleted := deleted mf1;
+                        perm := if deleted mf1 then None else perm mf1 |}, perm mf1)
           end
       end in
     let '(mf3, prev_del) :=
